@@ -185,6 +185,17 @@ func quoteValue(quotes string, null bool, rendered interface{}) string {
 	return fmt.Sprintf("%s%v%s", quotes, rendered, quotes)
 }
 
+// quoteKey writes a field name between the configured quotes; for JSON (null == true) the name is escaped like a
+// string value, so that a renamed field keeps the document well formed whatever characters the new name has
+func quoteKey(quotes string, null bool, name string) string {
+	if null {
+		if b, err := json.Marshal(name); err == nil {
+			return string(b)
+		}
+	}
+	return quotes + name + quotes
+}
+
 func (m *ProtoProducerMessage) FormatMessageReflectCustom(ext, quotes, sep, sign string, null bool) string {
 	vfm := reflect.ValueOf(m)
 	vfm = reflect.Indirect(vfm)
@@ -264,7 +275,7 @@ func (m *ProtoProducerMessage) FormatMessageReflectCustom(ext, quotes, sep, sign
 				}
 			}
 			v += "]"
-			fstr[i] = fmt.Sprintf("%s%s%s%s%s", quotes, fieldFinalName, quotes, sign, v)
+			fstr[i] = quoteKey(quotes, null, fieldFinalName) + sign + v
 		} else {
 			var val interface{}
 			if fieldValue.IsValid() {
@@ -277,9 +288,9 @@ func (m *ProtoProducerMessage) FormatMessageReflectCustom(ext, quotes, sep, sign
 			}
 			renderedType := reflect.TypeOf(rendered)
 			if renderedType.Kind() == reflect.String {
-				fstr[i] = fmt.Sprintf("%s%s%s%s%s", quotes, fieldFinalName, quotes, sign, quoteValue(quotes, null, rendered))
+				fstr[i] = quoteKey(quotes, null, fieldFinalName) + sign + quoteValue(quotes, null, rendered)
 			} else {
-				fstr[i] = fmt.Sprintf("%s%s%s%s%v", quotes, fieldFinalName, quotes, sign, rendered)
+				fstr[i] = quoteKey(quotes, null, fieldFinalName) + sign + fmt.Sprintf("%v", rendered)
 			}
 		}
 		i++
